@@ -4,9 +4,10 @@ outside the translator's whitelist = a broken proof obligation).  Modules that d
 not exist yet are skipped."""
 import importlib
 
-MODULES = ['translator.py2coq', 'translator.fwd2coq', 'translator.admin2coq']
+MODULES = ['translator.py2coq', 'translator.fwd2coq', 'translator.admin2coq', 'translator.ns2coq']
 # which properties' theorems are stated over the text a translator generates
-DEPENDENTS = {'translator.py2coq': {'C13', 'C18'}, 'translator.fwd2coq': {'C17'}, 'translator.admin2coq': {'C18'}}
+DEPENDENTS = {'translator.py2coq': {'C13', 'C18'}, 'translator.fwd2coq': {'C17'}, 'translator.admin2coq': {'C18'},
+              'translator.ns2coq': {'C13'}}
 
 
 def regenerate(cid=None):
